@@ -479,6 +479,9 @@ def py_to_float(tok):
 
 
 def c_tables(tokens, transforms):
+    '''The primitives float(), to_float(), normalize_float() as tables. A token
+    float() / to_float() refuses is simply left out (Exec.prims_of answers None
+    for a missing key), normalize_float is tabulated for number-like tokens.'''
     from t4_geom_convert.Kernel.Utils import normalize_float
     toks = set()
     for tok in tokens:
@@ -486,11 +489,14 @@ def c_tables(tokens, transforms):
         toks.update([tok, low, low[:-1]])
     toks.discard('')
     toks = sorted(toks)
-    floats = clist(cpair(cstr(t), copt(py_float(t), cfloat)) for t in toks)
+    floats = clist(cpair(cstr(t), copt(py_float(t), cfloat)) for t in toks
+                   if py_float(t) is not None)
     tofloats = clist(cpair(cstr(t), copt(py_to_float(t), cfloat))
-                     for t in toks)
+                     for t in toks if py_to_float(t) is not None)
     norms = []
     for tok in toks:
+        if tok[0] not in '0123456789.+-':
+            continue
         try:
             norms.append(cpair(cstr(tok), cstr(normalize_float(tok))))
         except Exception:     # pylint: disable=broad-except
@@ -531,7 +537,7 @@ def card_split(name, toks):
     return text[:pos].lower(), text[pos:].split()
 
 
-def c_pcase(deck, lattice_args, result):
+def c_pcase(deck, lattice_args, result, texts=True):
     '''One `pcase` term.'''
     from t4_geom_convert.main import parse_lattice
     transforms = result[3]
@@ -548,8 +554,9 @@ def c_pcase(deck, lattice_args, result):
         out = f'(Ok ({cells}, {clist(cz(k) for k in result[2])}))'
     else:
         out = f'(Err {EXC_MAP.get(result[1], "EOther_" + result[1])})'
-    ctexts = clist(cstr(t) for t in CONTENTS['c'])
-    dtexts = clist(cstr(t) for t in CONTENTS['d'])
+    # the card texts are only used by check_parse (second route)
+    ctexts = clist(cstr(t) for t in CONTENTS['c']) if texts else '[]'
+    dtexts = clist(cstr(t) for t in CONTENTS['d']) if texts else '[]'
     return f'(mkCase {tables} {imps} {cards} {lats} {ctexts} {dtexts} {out})'
 
 
